@@ -15,6 +15,7 @@ UNIT_CONFIGS = {
     'registry_impls': [('', ('std',))],
     'codec': [('', ('std',))],
     'serde': [('', ('std', 'serde'))],
+    'path': [('', ('std',))],
     'build': [('-docs', ('std', 'docs')), ('-nodocs', ('std',))],
     'metatype': [('', ('std',))],
     'alias': [('', ('std',))],
@@ -50,11 +51,16 @@ STD_ASSUMPTIONS = {
              'serde data model to JSON (struct -> object with the serialized fields in order and skipped fields absent, newtype variant -> {"variant": value}, '
              'unit variant -> "variant", seq -> array, None -> null). The `len` argument of serialize_struct is not constrained. The serde derive is trusted to '
              'emit what rustc expands (the expansion is taken from rustc with feature serde on every run).',
+    'A11': 'ASSUMED contracts (written for this project, vstd has none) on std string / slice-iterator functions: str::strip_prefix for a &str pattern (Some(rest) exactly when the '
+           'string starts with the pattern), u8::is_ascii_lowercase / is_ascii_uppercase / is_ascii_digit (the three byte ranges), <[T]>::split_last, Iterator::position and Iterator::last of '
+           'core::slice::Iter (in terms of the elements the iterator will yield; position through the contract of the closure value passed in). Cross-checked, within bounds, by the Kani harnesses '
+           'that run the same callers on the real std code.',
     'PARTIAL': 'termination of Registry::register_type is NOT proved (depends on finiteness of the Rust type graph); the registry recursion carries '
                'exec_allows_no_decreases_clause, so the registry units are partial-correctness proofs; absence of stack overflow is not proved anywhere',
     'MODULAR': 'the mutual recursion register_type <-> into_portable is cut modularly into two Verus units (registry / registry_impls) sharing one contract text, '
                'because Verus rejects the trait-dictionary cycle; four trait-impl methods (Path, Field, Variant, Type) are verified as identical-text inherent twins (rule R12)',
-    'TOOLS': 'Verus 0.2026.09.13 + Z3; the extractor (syntactic, rules R1-R4, R11 and logged rewrite directives)',
+    'TOOLS': 'Verus 0.2026.09.13 + Z3; rustc (macro expansion per feature set, -Zunpretty=expanded); the extractor (syntactic; global rules R1-R4, R6, R7, R9-R11, R14-R18 and the '
+             'template-directed rewrites RET, R8, R12, R13, HDR - every application is logged in coverage.extraction.rewrites)',
 }
 
 
@@ -166,14 +172,24 @@ PROPS = {
     'C18': dict(
         title='Paths are non-empty sequences of valid Rust identifiers',
         level='other',
-        technique='Kani function contract on is_rust_identifier (proof_for_contract + stub_verified) and oracle harnesses on Path::*, bounded by string length / segment count',
-        level_text='Bounded contract check with CBMC on the real functions: is_rust_identifier(s) == spec_ident(s) for all ASCII strings up to the bound and for strings containing one arbitrary char; Path::from_segments against the oracle (Ok iff non-empty and all segments identifiers, first offending index reported, order kept, ident/namespace) with is_rust_identifier replaced by its contract; Path::new / new_with_replace on small module paths.',
-        level_note='BOUNDED, not a proof: the loops are inside std (str::strip_prefix, Iterator::all/position, split), there is no place to attach an invariant and Verus cannot take these functions. Bounds: quick 8 ASCII bytes, 2 segments x 4 bytes; thorough 12 bytes, 3 x 4. Display is not covered (core::fmt is out of CBMC reach in useful time).',
-        explanation='bounded Kani/CBMC checks of the real string functions against an independent recogniser and oracle; all inputs up to the stated bounds',
-        verus=[],
+        technique='Verus: postcondition `r == ident_ok(s@)` on the real is_rust_identifier for ALL strings, and the exact success / first-offending-position contract on Path::from_segments '
+                  '(plus is_empty, ident, namespace), over assumed contracts of the std string / iterator functions they call; Kani (bounded) runs the same functions with the real std code; '
+                  'Path::new / new_with_replace / Display bounded only',
+        level_text='MIXED. Proved (Verus, unbounded): is_rust_identifier(s) is true exactly when s matches (r#)?[A-Za-z_][A-Za-z0-9_]* - for every string, any length, any characters (grammar '
+                   'ident_ok written from the statement; non-ASCII strings shown to be non-identifiers by lemma_bad_char). Path::from_segments(segments): Ok exactly when there is at least one '
+                   'segment and every segment is an identifier, the path then holds the segments in order; MissingSegments exactly for no segments; otherwise InvalidIdentifier carries the '
+                   'position of the FIRST offending segment. is_empty, ident (last segment), namespace (all but the last). NOT proved, bounded only (Kani + native): Path::new and '
+                   'new_with_replace (str::split, Chain, Once, the replacement lookup: no specifications, no place for an invariant), Display (core::fmt), and the std functions themselves.',
+        level_note='Assumed (A11): contracts written for this project on str::strip_prefix (for a &str pattern), u8::is_ascii_lowercase / uppercase / digit, <[T]>::split_last, '
+                   'Iterator::position and Iterator::last of slice::Iter (position through the contract of the predicate passed in; predicates with side effects or preconditions are out of scope), '
+                   'plus vstd\'s own str::is_ascii, str::as_bytes, <[T]>::split_first, Iterator::all, Option::unwrap_or / map / cloned. Kani runs the same functions on the real std code as a cross-check of '
+                   'exactly these assumptions: quick 8 ASCII bytes + one arbitrary char; thorough 12 bytes, from_segments 3 x 4 bytes, new_with_replace on small module paths. '
+                   'Three template-directed rewrites (R8) in is_rust_identifier: the patterns `(&head, tail)` and `|&ch|` become variables plus a dereferencing `let` (Verus has no reference patterns).',
+        explanation='Verus obligations on the real is_rust_identifier / Path functions for all inputs; bounded Kani/CBMC checks of the same functions on the real std code',
+        verus=[('path', ['is_rust_identifier', 'Path<MetaForm>::from_segments', 'Path<T>::is_empty', 'Path<T>::ident', 'Path<T>::namespace', 'tmpl::lemma_byte_char', 'tmpl::lemma_bad_char'])],
         kani_quick=['ident_ascii_8', 'ident_unicode_char'],
         kani_thorough=['ident_ascii_12', 'ident_unicode_char', 'ident_contract_3', 'from_segments_3x4', 'path_new_with_replace_small'],
-        assumptions=['TOOLS'],
+        assumptions=['A11', 'A5', 'VSTD', 'TOOLS'],
     ),
     'C06': dict(
         title='SCALE wire format of the registry is the published V14 layout, byte for byte',
